@@ -875,7 +875,12 @@ def Array_iadd_prefactor_other(self, prefactor, other):
         if np.any(self.qtotal != other.qtotal):
             raise ValueError("Arrays can't have different `qtotal`!")
     if prefactor == 0.:
-        return self # nothing to do
+        # nothing to add; the dtype follows the usual promotion (like ``self += 0. * other`` in the Python version)
+        zero_dtype = np.result_type(self.dtype, other.dtype, prefactor)
+        if self.dtype != zero_dtype:
+            self.dtype = zero_dtype
+            self._data = [d.astype(zero_dtype) for d in self._data]
+        return self
     if other is self:
         other = other.copy()  # the BLAS calls below must not get the same memory for both arguments
     self.isort_qdata()
